@@ -1,20 +1,19 @@
 #!/bin/bash
 # usage: tools/seedcheck.sh <worktree> <A|B> PID [PID...]
-# confirms a seeded change (tests still green, demo fails with / passes without), then runs our checks on it
+# confirms a seeded change (tests still green, demo fails with / passes without), then runs our checks against
+# the patched WORKTREE (PYTHONPATH), so /repo is never touched and other runs are not disturbed
 WT="$1"; L="$2"; shift 2
 D="$WT/seed_$L.diff"; DEMO="$WT/demo_$L.py"
 [ -f "$D" ] || { echo "no $D"; exit 9; }
 cd "$WT" || exit 9
 git checkout -q -- gemato utils 2>/dev/null
+/venv/bin/python "$DEMO" >/tmp/seed_demo_out.txt 2>&1; echo "demo without change: exit $?"
 git apply "$D" || { echo "PATCH DOES NOT APPLY in worktree"; exit 9; }
 echo -n "tests with change: "; /verif/tools/baseline.py "$WT" | head -3 | tr '\n' ' '; echo
 /venv/bin/python "$DEMO" >/tmp/seed_demo_out.txt 2>&1; echo "demo with change: exit $? ($(tail -1 /tmp/seed_demo_out.txt | cut -c1-120))"
-git checkout -q -- gemato utils
-/venv/bin/python "$DEMO" >/tmp/seed_demo_out.txt 2>&1; echo "demo without change: exit $?"
-cd /repo && git apply "$D" || { echo "PATCH DOES NOT APPLY to /repo"; exit 9; }
 cd /verif
 for pid in "$@"; do
-  out=$(timeout 1800 /venv/bin/python -m gverif.run "$pid" --tier "${TIER:-quick}" 2>&1); rc=$?
+  out=$(PYTHONPATH="$WT" GVERIF_C20_UTILS="$WT/utils" timeout 1800 /venv/bin/python -m gverif.run "$pid" --tier "${TIER:-quick}" 2>&1); rc=$?
   echo "check $pid: rc=$rc viol=$(echo "$out" | grep -c '^VIOLATION') harness=$(echo "$out" | grep -c HARNESS-ERROR) :: $(echo "$out" | grep -E '^  [a-z_]+:' | head -2 | cut -c1-220 | tr '\n' '|')"
 done
-git -C /repo checkout -- .
+git -C "$WT" checkout -q -- gemato utils
